@@ -52,6 +52,8 @@ var c08Plus = []c08Side{
 	{"call-variadic", "bar(x...)", ""},
 	{"for-dots", "for ... {\n  bar(x)\n}", ""},
 	{"for-dots-body-dots", "for ... {\n  ...\n}", ""},
+	{"for-dots-body-decl-x", "for ... {\n  var x int\n}", ""},
+	{"for-dots-body-label-x", "for ... {\n  x: bar()\n}", ""},
 	{"block-dots", "{\n  ...\n  bar()\n}", ""},
 	{"stmt-dots", "pre2()\n...\nbar(x)", ""},
 	{"define", "y := bar(x)", ""},
